@@ -1,10 +1,14 @@
 #!/bin/bash
 # MANIFEST.setup_cmd: build everything the checks need from files on disk (offline).
 set -u
-cd /verif
+root=$(cd "$(dirname "$0")/.." && pwd)
+cd "$root"
 mkdir -p build evidence replays
 for v in verif asan; do tools/build_repo.sh $v || exit 1; done
 for d in harness/*/; do
-  [ -f "$d/Makefile" ] && { make -s -C "$d" -j16 || exit 1; }
+  n=$(basename "$d")
+  [ -f "$d/Makefile" ] || continue
+  b=$root/build/repo-verif; [ "$n" = parsex ] && b=$root/build/repo-asan
+  make -s -C "$d" -j16 B=$b OUT=$root/build/harness/$n || exit 1
 done
 echo "setup ok"
